@@ -595,7 +595,9 @@ def _read(data: bytes, dev: dict, keys: Optional[dict], policy: Optional[str], v
         out.update(cert=cb, signed_len=len(signed), sig_len=sig_len, regions=regions,
                    app_region=body[:coff], tz=body[mpos + 20:mpos + 20 + tz_len],
                    manifest={"fw_version": fwver, "length": mlen, "flags": mflags,
-                             "digest_len": digest_len})
+                             "digest_len": digest_len, "digest_alg": (mflags & 0xF) if digest_len else 0,
+                             # id of the hash the ROM uses for the image signature (curve of the signing key)
+                             "signature_hash_alg": cb["sign_curve"]})
         return _finish(out)
 
     raise Reject("device", f"signed image on a device without certificate block support ({kind})")
